@@ -137,3 +137,18 @@ func (e *Message) VerifChunkCap() (length, capacity int) { return len(e.chunks),
 
 // VerifNewParser exposes parser.New.
 func VerifNewParser(r interface{ Read([]byte) (int, error) }) *parser.Parser { return parser.New(r) }
+
+// VerifRead exposes read, the interpretation loop shared by Read and Connection.read, with all of
+// its parameters: the initial last event ID, the retry callback (nil: none) and ignoreEOF.
+// If setBuffer is true the parser is given buf/maxSize through Parser.Buffer.
+func VerifRead(r interface{ Read([]byte) (int, error) }, setBuffer bool, buf []byte, maxSize int,
+	lastEventID string, onRetry func(int64), ignoreEOF bool) func(func(Event, error) bool) {
+	pf := func() *parser.Parser {
+		p := parser.New(r)
+		if setBuffer {
+			p.Buffer(buf, maxSize)
+		}
+		return p
+	}
+	return read(pf, lastEventID, onRetry, ignoreEOF)
+}
